@@ -82,22 +82,6 @@ Proof.
   - simpl in Hv. destruct a; try discriminate. eauto.
 Qed.
 
-Lemma subst_each_not_none rv vs : subst_each rv vs <> Some RNone.
-Proof.
-  induction vs as [|v vs IH]; simpl; try discriminate.
-  destruct (rv v) as [[| |]|]; try discriminate;
-    destruct (subst_each rv vs) as [[| |]|]; try discriminate; congruence.
-Qed.
-
-Lemma rebuild_not_none rv args : rebuild rv args <> Some RNone.
-Proof.
-  induction args as [|a args IH]; simpl; try discriminate.
-  destruct (is_func a).
-  - destruct (rv a) as [[| |]|]; try discriminate;
-      destruct (rebuild rv args) as [[| |]|]; try discriminate; congruence.
-  - destruct (rebuild rv args) as [[| |]|]; try discriminate; congruence.
-Qed.
-
 Section VarProofs.
   Variable env : string -> list tok.
   Notation resolve_var := (resolve_var env).
@@ -109,146 +93,171 @@ Section VarProofs.
 
   (* ---- what substitution returns has no var() left *)
   Lemma subst_varfree :
-    (forall t r, Subst t r -> Forall (fun x => has_var x = false) r) /\
-    (forall l r, SubstL l r -> Forall (fun x => has_var x = false) r).
+    (forall ps t r, Subst ps t r -> Forall (fun x => has_var x = false) r) /\
+    (forall ps l r, SubstL ps l r -> Forall (fun x => has_var x = false) r).
   Proof.
     split.
-    - intros t r H.
+    - intros ps t r H.
       induction H using Subst_mut with
-        (P0 := fun l r => Forall (fun x => has_var x = false) r); auto.
+        (P0 := fun ps l r => Forall (fun x => has_var x = false) r); auto.
       + constructor; auto. apply has_var_func_varfree; auto.
       + apply Forall_app. split; assumption.
-    - intros l r H.
+    - intros ps l r H.
       induction H using SubstL_mut with
-        (P := fun t r => Forall (fun x => has_var x = false) r); auto.
+        (P := fun ps t r => Forall (fun x => has_var x = false) r); auto.
       + constructor; auto. apply has_var_func_varfree; auto.
       + apply Forall_app. split; assumption.
   Qed.
 
-  Lemma resolve_varfree fuel t x : has_var t = false -> resolve_var fuel t = Some x -> x = RNone.
+  Lemma resolve_varfree fuel ps t x : has_var t = false -> resolve_var fuel ps t = Some x -> x = RNone.
   Proof.
     intros H. destruct fuel; simpl; [discriminate|]. rewrite H. simpl. congruence.
   Qed.
 
-  Lemma resolve_has_var fuel t : resolve_var fuel t = Some RNone -> has_var t = false.
+  Lemma resolve_has_var fuel ps t : resolve_var fuel ps t = Some RNone -> has_var t = false.
   Proof.
     destruct fuel; simpl; [discriminate|].
     destruct (has_var t) eqn:E; simpl; auto.
     destruct t; try discriminate.
     destruct (String.eqb ln "var") eqn:Hln; simpl.
     - destruct (has_var_var _ _ _ Hln E) as (v & lv & default & Ea). rewrite Ea.
-      intro H. exfalso. eapply subst_each_not_none; eauto.
-    - pose proof (rebuild_not_none (resolve_var fuel) args) as NN.
-      destruct (rebuild (resolve_var fuel) args) as [[|arguments|]|]; try discriminate; try congruence.
-      destruct (resolve_var fuel (TFunc n ln arguments)) as [[|[|]|]|]; discriminate.
+      destruct (str_in (underscore v) ps); [discriminate|].
+      destruct (subst_each _ _); discriminate.
+    - destruct (rebuild (resolve_var fuel ps) args) as [arguments|]; try discriminate.
+      destruct (resolve_var fuel ps (TFunc n ln arguments)) as [[|[|]]|]; discriminate.
   Qed.
 
   (* ---- soundness: whatever resolve_var returns is the substitution *)
-  Lemma subst_each_sound fuel vs r :
-    (forall t x, resolve_var fuel t = Some (RToks x) -> Subst t x) ->
-    subst_each (resolve_var fuel) vs = Some (RToks r) -> SubstL vs r.
+  Lemma subst_each_sound fuel ps vs r :
+    (forall t x, resolve_var fuel ps t = Some (RToks x) -> Subst ps t x) ->
+    subst_each (resolve_var fuel ps) vs = Some r -> SubstL ps vs r.
   Proof.
     intro IH. revert r. induction vs as [|v vs IHv]; intros r H; simpl in H.
     - inversion H. constructor.
-    - destruct (resolve_var fuel v) as [x|] eqn:E; try discriminate.
-      destruct x as [|l|]; try discriminate.
-      + destruct (subst_each (resolve_var fuel) vs) as [[|rest|]|] eqn:E2; try discriminate.
-        inversion H; subst. change (v :: rest) with ([v] ++ rest)%list.
-        constructor; auto. apply S_plain. eapply resolve_has_var; eauto.
-      + destruct (subst_each (resolve_var fuel) vs) as [[|rest|]|] eqn:E2; try discriminate.
-        inversion H; subst. constructor; auto.
+    - destruct (resolve_var fuel ps v) as [x|] eqn:E; try discriminate.
+      destruct (subst_each (resolve_var fuel ps) vs) as [rest|] eqn:E2; try discriminate.
+      inversion H; subst. destruct x as [|l].
+      + change (v :: rest) with ([v] ++ rest)%list. constructor; auto.
+        apply S_plain. eapply resolve_has_var; eauto.
+      + constructor; auto.
   Qed.
 
-  Lemma rebuild_sound fuel args r :
-    (forall t x, resolve_var fuel t = Some (RToks x) -> Subst t x) ->
-    rebuild (resolve_var fuel) args = Some (RToks r) -> SubstL args r.
+  Lemma rebuild_sound fuel ps args r :
+    (forall t x, resolve_var fuel ps t = Some (RToks x) -> Subst ps t x) ->
+    rebuild (resolve_var fuel ps) args = Some r -> SubstL ps args r.
   Proof.
     intro IH. revert r. induction args as [|a args IHa]; intros r H; simpl in H.
     - inversion H. constructor.
     - destruct (is_func a) eqn:Fa.
-      + destruct (resolve_var fuel a) as [[|l|]|] eqn:E; try discriminate.
-        destruct (rebuild (resolve_var fuel) args) as [[|rest|]|] eqn:E2; try discriminate.
-        inversion H; subst. constructor; auto.
-      + destruct (rebuild (resolve_var fuel) args) as [[|rest|]|] eqn:E2; try discriminate.
+      + destruct (resolve_var fuel ps a) as [[|l]|] eqn:E; try discriminate;
+          destruct (rebuild (resolve_var fuel ps) args) as [rest|] eqn:E2; try discriminate;
+          inversion H; subst.
+        * change (a :: rest) with ([a] ++ rest)%list. constructor; auto.
+          apply S_plain. eapply resolve_has_var; eauto.
+        * constructor; auto.
+      + destruct (rebuild (resolve_var fuel ps) args) as [rest|] eqn:E2; try discriminate.
         inversion H; subst. change (a :: rest) with ([a] ++ rest)%list.
         constructor; auto. apply S_plain. now apply has_var_nonfunc.
   Qed.
 
-  Theorem resolve_var_sound fuel t r : resolve_var fuel t = Some (RToks r) -> Subst t r.
+  Theorem resolve_var_sound fuel ps t r : resolve_var fuel ps t = Some (RToks r) -> Subst ps t r.
   Proof.
-    revert t r. induction fuel as [|f IH]; intros t r H; simpl in H; [discriminate|].
+    revert ps t r. induction fuel as [|f IH]; intros ps t r H; simpl in H; [discriminate|].
     destruct (has_var t) eqn:Hv; simpl in H; [|discriminate].
     destruct t; try discriminate.
     destruct (String.eqb ln "var") eqn:Hln; simpl in H.
     - destruct (has_var_var _ _ _ Hln Hv) as (v & lv & default & Ea). rewrite Ea in H.
-      apply S_var with (x := v); auto.
-      + unfold impl_var_name. now rewrite Ea.
-      + unfold impl_key, impl_fallback. rewrite Ea. simpl tl.
-        eapply subst_each_sound; eauto.
-        destruct (env (underscore v)); exact H.
-    - destruct (rebuild (resolve_var f) args) as [[|arguments|]|] eqn:Er; try discriminate.
-      pose proof (rebuild_sound f args arguments IH Er) as HL.
+      destruct (str_in (underscore v) ps) eqn:Hc.
+      + inversion H; subst. apply S_cycle with (x := v); auto. unfold impl_var_name. now rewrite Ea.
+      + destruct (subst_each _ _) as [l|] eqn:Es; try discriminate. inversion H; subst.
+        apply S_var with (x := v); auto.
+        * unfold impl_var_name. now rewrite Ea.
+        * unfold impl_key, impl_fallback. rewrite Ea. simpl tl.
+          destruct (env (underscore v)); eapply subst_each_sound; eauto.
+    - destruct (rebuild (resolve_var f ps) args) as [arguments|] eqn:Er; try discriminate.
+      pose proof (rebuild_sound f ps args arguments (IH ps) Er) as HL.
       assert (Hfree : has_var (TFunc n ln arguments) = false).
       { apply has_var_func_varfree; auto. now apply (proj2 subst_varfree) in HL. }
-      destruct (resolve_var f (TFunc n ln arguments)) as [x|] eqn:Et; try discriminate.
-      rewrite (resolve_varfree _ _ _ Hfree Et) in H. inversion H; subst.
+      destruct (resolve_var f ps (TFunc n ln arguments)) as [x|] eqn:Et; try discriminate.
+      rewrite (resolve_varfree _ _ _ _ Hfree Et) in H. inversion H; subst.
       apply S_fun; auto.
   Qed.
 
   (* the tokens handed to Pending.solve are the substituted tokens of the declaration *)
   Theorem solved_tokens_sound fuel tokens r :
-    solved_tokens env fuel tokens = Some (RToks r) -> SubstL tokens r.
+    solved_tokens env fuel tokens = Some r -> SubstL [] tokens r.
   Proof.
     unfold solved_tokens. apply subst_each_sound. intros t x. apply resolve_var_sound.
   Qed.
 
-  (* ---- substitution is a function *)
-  Lemma subst_deterministic :
-    (forall t r, Subst t r -> forall r', Subst t r' -> r = r') /\
-    (forall l r, SubstL l r -> forall r', SubstL l r' -> r = r').
+  (* ---- every reference is substituted by itself: the tokens of a declaration are resolved one by one, and what
+     one token gives does not depend on the tokens around it (their names, their fallbacks) *)
+  Lemma subst_each_app rv a b :
+    subst_each rv (a ++ b) =
+    match subst_each rv a, subst_each rv b with
+    | Some x, Some y => Some (x ++ y)%list
+    | _, _ => None
+    end.
   Proof.
-    assert (A : forall t r, Subst t r -> forall r', Subst t r' -> r = r').
-    { intros t r H.
-      induction H using Subst_mut with (P0 := fun l r => forall r', SubstL l r' -> r = r').
-      - intros r' H'. inversion H'; subst; auto; congruence.
-      - intros r' H'. inversion H'; subst; try congruence.
-        assert (x0 = x) by congruence. subst. auto.
-      - intros r' H'. inversion H'; subst; try congruence.
-        f_equal. f_equal. auto.
-      - intros r' H'. inversion H'. reflexivity.
-      - intros r' H'. inversion H'; subst. f_equal; auto. }
-    split; auto.
-    intros l r H. induction H; intros r' H'; inversion H'; subst; auto.
-    f_equal; eauto.
+    induction a as [|v a IH]; simpl.
+    - destruct (subst_each rv b); reflexivity.
+    - destruct (rv v) as [res|]; [|reflexivity].
+      rewrite IH. destruct (subst_each rv a), (subst_each rv b); try reflexivity.
+      now rewrite app_assoc.
+  Qed.
+
+  Theorem references_are_independent fuel before t after r :
+    solved_tokens env fuel (before ++ t :: after) = Some r ->
+    exists rb rt ra, r = (rb ++ rt ++ ra)%list /\
+                     solved_tokens env fuel before = Some rb /\ solved_tokens env fuel [t] = Some rt /\
+                     solved_tokens env fuel after = Some ra.
+  Proof.
+    unfold solved_tokens. rewrite subst_each_app.
+    destruct (subst_each _ before) as [rb|]; [|discriminate].
+    change (t :: after) with ([t] ++ after)%list. rewrite subst_each_app.
+    destruct (subst_each _ [t]) as [rt|]; [|discriminate].
+    destruct (subst_each _ after) as [ra|]; [|discriminate].
+    intro H. inversion H. eauto 10.
+  Qed.
+
+  (* a reference to a defined property ignores its fallback; a reference to an undefined one is its own fallback *)
+  Theorem fallback_unused_when_defined fuel ps n ln v lv fb1 fb2 :
+    env (underscore v) <> [] ->
+    has_var (TFunc n ln (TIdent v lv :: TLit "," :: fb1)) = true ->
+    has_var (TFunc n ln (TIdent v lv :: TLit "," :: fb2)) = true -> String.eqb ln "var" = true ->
+    resolve_var fuel ps (TFunc n ln (TIdent v lv :: TLit "," :: fb1)) =
+    resolve_var fuel ps (TFunc n ln (TIdent v lv :: TLit "," :: fb2)).
+  Proof.
+    intros Hd H1 H2 Hln. destruct fuel; [reflexivity|]. cbn [C07Var.resolve_var].
+    rewrite H1, H2, Hln. cbn [negb]. unfold fn_args. cbn [filter is_ws is_comma is_lit negb andb].
+    rewrite String.eqb_refl. cbn [negb andb].
+    destruct (str_in (underscore v) ps); [reflexivity|].
+    destruct (env (underscore v)); [congruence|reflexivity].
   Qed.
 
   (* ---- fuel suffices when the definitions are acyclic *)
   Variable rk : string -> nat.
   Hypothesis Hranked : ranked env rk.
 
-  Definition fine (x : vres) : Prop := x <> RTypeError.
-
-  Lemma subst_each_fine F vs :
-    (forall v, In v vs -> forall f, (F <= f)%nat -> exists x, resolve_var f v = Some x /\ fine x) ->
-    forall f, (F <= f)%nat -> exists r, subst_each (resolve_var f) vs = Some (RToks r).
+  Lemma subst_each_total F ps vs :
+    (forall v, In v vs -> forall f, (F <= f)%nat -> exists x, resolve_var f ps v = Some x) ->
+    forall f, (F <= f)%nat -> exists r, subst_each (resolve_var f ps) vs = Some r.
   Proof.
     induction vs as [|v vs IH]; intros H f Hf; simpl.
     - eauto.
-    - destruct (H v (or_introl eq_refl) f Hf) as [x [Hx Hfine]]. rewrite Hx.
-      destruct (IH (fun u Hu => H u (or_intror Hu)) f Hf) as [rest Hrest]. rewrite Hrest.
-      destruct x; [eauto|eauto|]. exfalso. now apply Hfine.
+    - destruct (H v (or_introl eq_refl) f Hf) as [x Hx]. rewrite Hx.
+      destruct (IH (fun u Hu => H u (or_intror Hu)) f Hf) as [rest Hrest]. rewrite Hrest. eauto.
   Qed.
 
-  Lemma rebuild_fine F args :
-    (forall a, In a args -> is_func a = true ->
-               forall f, (F <= f)%nat -> exists l, resolve_var f a = Some (RToks l)) ->
-    forall f, (F <= f)%nat -> exists r, rebuild (resolve_var f) args = Some (RToks r).
+  Lemma rebuild_total F ps args :
+    (forall a, In a args -> forall f, (F <= f)%nat -> exists x, resolve_var f ps a = Some x) ->
+    forall f, (F <= f)%nat -> exists r, rebuild (resolve_var f ps) args = Some r.
   Proof.
     induction args as [|a args IH]; intros H f Hf; simpl.
     - eauto.
     - destruct (IH (fun u Hu => H u (or_intror Hu)) f Hf) as [rest Hrest]. rewrite Hrest.
       destruct (is_func a) eqn:Fa; [|eauto].
-      destruct (H a (or_introl eq_refl) Fa f Hf) as [l Hl]. rewrite Hl. eauto.
+      destruct (H a (or_introl eq_refl) f Hf) as [[|l] Hl]; rewrite Hl; eauto.
   Qed.
 
   Lemma forallb_fix (g : tok -> bool) args :
@@ -270,79 +279,66 @@ Section VarProofs.
   Proof. unfold fn_args. intro H. apply filter_In in H. tauto. Qed.
 
   Theorem resolve_var_fuel_sufficient n t :
-    refs_lt rk n t = true -> regular t = true ->
-    exists F, forall f, (F <= f)%nat -> exists x, resolve_var f t = Some x /\ fine x.
+    refs_lt rk n t = true ->
+    forall ps, exists F, forall f, (F <= f)%nat -> exists x, resolve_var f ps t = Some x.
   Proof.
     revert t. induction n as [n IHn] using lt_wf_ind.
     assert (Plain : forall t, has_var t = false ->
-              exists F, forall f, (F <= f)%nat -> exists x, resolve_var f t = Some x /\ fine x).
-    { intros t Hv. exists 1%nat. intros f Hf. destruct f as [|f]; [lia|]. cbn [C07Var.resolve_var]. rewrite Hv. simpl.
-      exists RNone. split; auto. discriminate. }
-    induction t as [| | | | | |nm ln args IHargs|] using tok_induction; intros Hrefs Hreg;
+              forall ps, exists F, forall f, (F <= f)%nat -> exists x, resolve_var f ps t = Some x).
+    { intros t Hv ps. exists 1%nat. intros f Hf. destruct f as [|f]; [lia|]. cbn [C07Var.resolve_var]. rewrite Hv.
+      simpl. eauto. }
+    induction t as [| | | | | |nm ln args IHargs|] using tok_induction; intros Hrefs ps;
       try (apply Plain; reflexivity).
     destruct (has_var (TFunc nm ln args)) eqn:Hv; [|now apply Plain].
     cbn [refs_lt] in Hrefs. rewrite Hv, forallb_fix in Hrefs.
     apply andb_true_iff in Hrefs. destruct Hrefs as [Hname Hrefs].
-    cbn [regular] in Hreg. rewrite Hv in Hreg.
-    rewrite (forallb_fix (fun a => if is_func a then (String.eqb ln "var" || has_var a) && regular a else true))
-      in Hreg.
-    rewrite forallb_forall in Hrefs, Hreg.
-    assert (RegArg : forall a, In a args -> regular a = true).
-    { intros a Ha. specialize (Hreg a Ha). destruct (is_func a) eqn:Fa.
-      - apply andb_true_iff in Hreg. tauto.
-      - destruct a; try reflexivity; discriminate. }
-    (* a bound for all the arguments *)
-    assert (Bargs : exists F, forall a, In a args -> forall f, (F <= f)%nat ->
-                                        exists x, resolve_var f a = Some x /\ fine x).
-    { apply (common_bound (fun a f => exists x, resolve_var f a = Some x /\ fine x)).
+    rewrite forallb_forall in Hrefs.
+    assert (Bargs : forall ps', exists F, forall a, In a args -> forall f, (F <= f)%nat ->
+                                        exists x, resolve_var f ps' a = Some x).
+    { intro ps'. apply (common_bound (fun a f => exists x, resolve_var f ps' a = Some x)).
       rewrite Forall_forall in *. intros a Ha. apply IHargs; auto. }
-    destruct Bargs as [Fa HFa].
     destruct (String.eqb ln "var") eqn:Hln.
     - destruct (has_var_var _ _ _ Hln Hv) as (v & lv & default & Ea).
       rewrite Ea in Hname. apply Nat.ltb_lt in Hname.
-      (* a bound for the tokens of the custom property *)
-      assert (Benv : exists F, forall u, In u (env (underscore v)) -> forall f, (F <= f)%nat ->
-                                         exists x, resolve_var f u = Some x /\ fine x).
-      { apply (common_bound (fun u f => exists x, resolve_var f u = Some x /\ fine x)).
-        pose proof (Hranked (underscore v)) as Hk. rewrite Forall_forall in *.
-        intros u Hu. destruct (Hk u Hu) as [R1 R2]. apply (IHn _ Hname u R1 R2). }
-      destruct Benv as [Fe HFe].
-      exists (S (Nat.max Fa Fe)). intros f Hf. destruct f as [|f]; [lia|].
-      cbn [C07Var.resolve_var]. rewrite Hv, Hln, Ea. cbn [negb].
+      destruct (str_in (underscore v) ps) eqn:Hc.
+      { exists 1%nat. intros f Hf. destruct f as [|f]; [lia|].
+        cbn [C07Var.resolve_var]. rewrite Hv, Hln, Ea, Hc. simpl. eauto. }
       destruct (env (underscore v)) as [|e0 erest] eqn:Ee.
-      + destruct (subst_each_fine Fa default) with (f := f) as [r Hr]; [|lia|].
+      + destruct (Bargs ps) as [Fa HFa].
+        exists (S Fa). intros f Hf. destruct f as [|f]; [lia|].
+        cbn [C07Var.resolve_var]. rewrite Hv, Hln, Ea, Hc, Ee. cbn [negb].
+        destruct (subst_each_total Fa ps default) with (f := f) as [r Hr]; [|lia|].
         * intros u Hu. apply HFa. apply in_fn_args. rewrite Ea. now right.
-        * rewrite Hr. exists (RToks r). split; auto. discriminate.
-      + destruct (subst_each_fine Fe (e0 :: erest)) with (f := f) as [r Hr]; [|lia|].
-        * intros u Hu. apply HFe. exact Hu.
-        * rewrite Hr. exists (RToks r). split; auto. discriminate.
-    - exists (S (S Fa)). intros f Hf. destruct f as [|f]; [lia|].
+        * rewrite Hr. eauto.
+      + assert (Benv : exists F, forall u, In u (e0 :: erest) -> forall f, (F <= f)%nat ->
+                         exists x, resolve_var f (ps ++ [underscore v]) u = Some x).
+        { apply (common_bound (fun u f => exists x, resolve_var f (ps ++ [underscore v]) u = Some x)).
+          pose proof (Hranked (underscore v)) as Hk. rewrite Ee in Hk. rewrite Forall_forall in *.
+          intros u Hu. apply (IHn _ Hname u (Hk u Hu)). }
+        destruct Benv as [Fe HFe].
+        exists (S Fe). intros f Hf. destruct f as [|f]; [lia|].
+        cbn [C07Var.resolve_var]. rewrite Hv, Hln, Ea, Hc, Ee. cbn [negb].
+        destruct (subst_each_total Fe (ps ++ [underscore v]) (e0 :: erest) HFe f) as [r Hr]; [lia|].
+        rewrite Hr. eauto.
+    - destruct (Bargs ps) as [Fa HFa].
+      exists (S (S Fa)). intros f Hf. destruct f as [|f]; [lia|].
       cbn [C07Var.resolve_var]. rewrite Hv, Hln. cbn [negb].
-      destruct (rebuild_fine Fa args) with (f := f) as [r Hr]; [|lia|].
-      + intros a Ha Fn f' Hf'. destruct (HFa a Ha f' Hf') as [x [Hx Hfine]].
-        specialize (Hreg a Ha). rewrite Fn in Hreg. simpl in Hreg.
-        apply andb_true_iff in Hreg. destruct Hreg as [Hva _].
-        destruct x as [|l|].
-        * apply resolve_has_var in Hx. congruence.
-        * eauto.
-        * exfalso. now apply Hfine.
-      + rewrite Hr.
-        assert (Hfree : has_var (TFunc nm ln r) = false).
-        { apply has_var_func_varfree; auto.
-          apply (proj2 subst_varfree args). eapply rebuild_sound; eauto.
-          intros t0 x0. apply resolve_var_sound. }
-        destruct f as [|f]; [lia|]. cbn [C07Var.resolve_var]. rewrite Hfree. simpl.
-        exists (RToks [TFunc nm ln r]). split; auto. discriminate.
+      destruct (rebuild_total Fa ps args HFa f) as [r Hr]; [lia|]. rewrite Hr.
+      assert (Hfree : has_var (TFunc nm ln r) = false).
+      { apply has_var_func_varfree; auto.
+        apply (proj2 subst_varfree ps args). eapply rebuild_sound; eauto.
+        intros t0 x0. apply resolve_var_sound. }
+      destruct f as [|f]; [lia|]. cbn [C07Var.resolve_var]. rewrite Hfree. simpl. eauto.
   Qed.
 
   Theorem solved_tokens_fuel_sufficient n tokens :
-    Forall (fun t => refs_lt rk n t = true /\ regular t = true) tokens ->
-    exists F, forall f, (F <= f)%nat -> exists r, solved_tokens env f tokens = Some (RToks r) /\ SubstL tokens r.
+    Forall (fun t => refs_lt rk n t = true) tokens ->
+    exists F, forall f, (F <= f)%nat -> exists r, solved_tokens env f tokens = Some r /\ SubstL [] tokens r.
   Proof.
     intro H.
-    destruct (common_bound (fun t f => exists x, resolve_var f t = Some x /\ fine x) tokens) as [F HF].
-    { rewrite Forall_forall in *. intros t Ht. destruct (H t Ht). now apply (resolve_var_fuel_sufficient n). }
-    exists F. intros f Hf. destruct (subst_each_fine F tokens HF f Hf) as [r Hr].
+    destruct (common_bound (fun t f => exists x, resolve_var f [] t = Some x) tokens) as [F HF].
+    { rewrite Forall_forall in *. intros t Ht. exact (resolve_var_fuel_sufficient n t (H t Ht) []). }
+    exists F. intros f Hf. destruct (subst_each_total F [] tokens HF f Hf) as [r Hr].
     exists r. split; auto. now apply (solved_tokens_sound f).
   Qed.
 End VarProofs.
@@ -350,64 +346,51 @@ End VarProofs.
 (* ------------------------------------------------------------------ where it is not substitution *)
 Definition VAR (name : string) (rest : list tok) := TFunc "var" "var" (TIdent name name :: rest).
 
-(* 1. cyclic definitions: no amount of fuel is enough (Python: RecursionError out of the renderer) *)
-Theorem cycle_diverges :
-  let env := fun k => if String.eqb k "__x" then [VAR "--x" []] else [] in
-  forall fuel, resolve_var env fuel (VAR "--x" []) = None.
-Proof.
-  intros env fuel. induction fuel as [|f IH]; [reflexivity|].
-  change (resolve_var env (S f) (VAR "--x" [])) with (subst_each (resolve_var env f) [VAR "--x" []]).
-  simpl. rewrite IH. reflexivity.
-Qed.
+(* 1. a reference back into a cycle is erased, the fallback of the outer reference is never used:
+   --x: 1 var(--x) ; var(--x, 7) gives 1 where CSS makes --x invalid and takes the fallback 7 *)
+Theorem cycle_is_erased :
+  let env := fun k => if String.eqb k "__x" then [TAtom 1; VAR "--x" []] else [] in
+  solved_tokens env 5 [VAR "--x" [TLit ","; TAtom 7]] = Some [TAtom 1].
+Proof. reflexivity. Qed.
 
-(* 2. a var()-free function next to a var() inside a function: TypeError, where substitution is defined *)
-Theorem plain_function_argument_raises :
-  let env := fun k => if String.eqb k "__a" then [TAtom 5] else [] in
-  let t := TFunc "calc" "calc" [VAR "--a" []; TFunc "max" "max" [TAtom 1]] in
-  (forall fuel, resolve_var env (S (S (S fuel))) t = Some RTypeError) /\
-  Subst env impl_key impl_fallback impl_var_name t [TFunc "calc" "calc" [TAtom 5; TFunc "max" "max" [TAtom 1]]].
-Proof.
-  intros env t. split.
-  - intro fuel. reflexivity.
-  - apply S_fun; try reflexivity.
-    pose (SP := fun x (H : has_var x = false) => S_plain env impl_key impl_fallback impl_var_name x H).
-    pose (NIL := SL_nil env impl_key impl_fallback impl_var_name).
-    assert (A : Subst env impl_key impl_fallback impl_var_name (VAR "--a" []) [TAtom 5]).
-    { apply S_var with (x := "--a"); try reflexivity.
-      exact (SL_cons _ _ _ _ (TAtom 5) [] [TAtom 5] [] (SP (TAtom 5) eq_refl) NIL). }
-    exact (SL_cons _ _ _ _ _ _ [TAtom 5] [TFunc "max" "max" [TAtom 1]] A
-             (SL_cons _ _ _ _ _ [] [TFunc "max" "max" [TAtom 1]] [] (SP (TFunc "max" "max" [TAtom 1]) eq_refl) NIL)).
-Qed.
-
-(* 3. the fallback loses its commas: var(--u, a, b) gives "a b" where CSS substitutes "a, b" *)
+(* 2. the fallback loses its commas: var(--u, a, b) gives "a b" where CSS substitutes "a, b" *)
 Theorem fallback_commas_lost :
   let env := fun _ : string => @nil tok in
   let args := [TIdent "--u" "--u"; TLit ","; TWs; TIdent "a" "a"; TLit ","; TWs; TIdent "b" "b"] in
-  resolve_var env 2 (TFunc "var" "var" args) = Some (RToks [TIdent "a" "a"; TIdent "b" "b"]) /\
+  resolve_var env 2 [] (TFunc "var" "var" args) = Some (RToks [TIdent "a" "a"; TIdent "b" "b"]) /\
   css_fallback args = [TIdent "a" "a"; TLit ","; TIdent "b" "b"].
 Proof. split; reflexivity. Qed.
 
-(* 4. two custom properties that differ by - / _ are one: var(--a-b) reads --a_b *)
+(* 3. two custom properties that differ by - / _ are one: var(--a-b) reads --a_b *)
 Theorem dash_underscore_collide :
   impl_key "--a-b" = impl_key "--a_b" /\ "--a-b" <> "--a_b".
 Proof. split; [reflexivity|discriminate]. Qed.
 
+(* 4. an undefined custom property without fallback is not "invalid at computed-value time": the var() is erased
+   and the rest of the declaration is validated - padding: var(--p) 2px computes as padding: 2px (finding
+   var:undefined-dropped; only a value made of the var() alone ends with no tokens, which solve() refuses) *)
+Theorem undefined_var_is_erased :
+  let env := fun _ : string => @nil tok in
+  solved_tokens env 2 [VAR "--p" []; TWs; TAtom 2] = Some [TWs; TAtom 2] /\
+  solved_tokens env 2 [VAR "--p" []] = Some [].
+Proof. split; reflexivity. Qed.
+
 Theorem var_refuted :
-  (let env := fun k => if String.eqb k "__x" then [VAR "--x" []] else [] in
-   forall fuel, resolve_var env fuel (VAR "--x" []) = None) /\
-  (let env := fun k => if String.eqb k "__a" then [TAtom 5] else [] in
-   let t := TFunc "calc" "calc" [VAR "--a" []; TFunc "max" "max" [TAtom 1]] in
-   (forall fuel, resolve_var env (S (S (S fuel))) t = Some RTypeError) /\
-   Subst env impl_key impl_fallback impl_var_name t [TFunc "calc" "calc" [TAtom 5; TFunc "max" "max" [TAtom 1]]]) /\
+  (let env := fun k => if String.eqb k "__x" then [TAtom 1; VAR "--x" []] else [] in
+   solved_tokens env 5 [VAR "--x" [TLit ","; TAtom 7]] = Some [TAtom 1]) /\
   (let env := fun _ : string => @nil tok in
    let args := [TIdent "--u" "--u"; TLit ","; TWs; TIdent "a" "a"; TLit ","; TWs; TIdent "b" "b"] in
-   resolve_var env 2 (TFunc "var" "var" args) = Some (RToks [TIdent "a" "a"; TIdent "b" "b"]) /\
+   resolve_var env 2 [] (TFunc "var" "var" args) = Some (RToks [TIdent "a" "a"; TIdent "b" "b"]) /\
    css_fallback args = [TIdent "a" "a"; TLit ","; TIdent "b" "b"]) /\
   (impl_key "--a-b" = impl_key "--a_b" /\ "--a-b" <> "--a_b").
-Proof.
-  split; [exact cycle_diverges|]. split; [exact plain_function_argument_raises|].
-  split; [exact fallback_commas_lost|exact dash_underscore_collide].
-Qed.
+Proof. split; [exact cycle_is_erased|]. split; [exact fallback_commas_lost|exact dash_underscore_collide]. Qed.
+
+(* a var()-free function next to a var() inside a function is kept (it used to raise) *)
+Example plain_function_argument_kept :
+  let env := fun k => if String.eqb k "__a" then [TAtom 5] else [] in
+  solved_tokens env 4 [TFunc "calc" "calc" [VAR "--a" []; TFunc "max" "max" [TAtom 1]]] =
+  Some [TFunc "calc" "calc" [TAtom 5; TFunc "max" "max" [TAtom 1]]].
+Proof. reflexivity. Qed.
 
 (* the hypotheses of the sufficiency theorem are satisfiable: --a: var(--b) 1 ; --b: 2 *)
 Example ranked_example :
@@ -415,20 +398,11 @@ Example ranked_example :
                       else if String.eqb k "__b" then [TAtom 2] else [] in
   let rk := fun k => if String.eqb k "__a" then 1%nat else 0%nat in
   ranked env rk /\
-  resolve_var env 6 (TFunc "calc" "calc" [VAR "--a" []; TWs; VAR "--u" [TLit ","; TAtom 7]]) =
-  Some (RToks [TFunc "calc" "calc" [TAtom 2; TAtom 1; TWs; TAtom 7]]).
+  solved_tokens env 6 [TFunc "calc" "calc" [VAR "--a" []; TWs; VAR "--u" [TLit ","; TAtom 7]]] =
+  Some [TFunc "calc" "calc" [TAtom 2; TAtom 1; TWs; TAtom 7]].
 Proof.
   intros env rk. split; [|reflexivity].
   intro k. unfold env, rk.
   destruct (String.eqb k "__a"); [repeat constructor|].
   destruct (String.eqb k "__b"); repeat constructor.
 Qed.
-
-(* 5. an undefined custom property without fallback is not "invalid at computed-value time": the var() is erased
-   and the rest of the declaration is validated - padding: var(--p) 2px computes as padding: 2px (finding
-   var:undefined-dropped; only a value made of the var() alone ends with no tokens, which solve() refuses) *)
-Theorem undefined_var_is_erased :
-  let env := fun _ : string => @nil tok in
-  solved_tokens env 2 [VAR "--p" []; TWs; TAtom 2] = Some (RToks [TWs; TAtom 2]) /\
-  solved_tokens env 2 [VAR "--p" []] = Some (RToks []).
-Proof. split; reflexivity. Qed.
